@@ -261,25 +261,28 @@ def s4(ctx, rep):
 def s5(ctx, rep, clause="S5"):
     P = ctx.P
     f = P.method("PromotionRungSystem", "_find_promotable_trial")
-    sgn = [n_ for n_ in {x.id for x in ast.walk(f.node) if isinstance(x, ast.Name)}
-           if any(not isinstance(d, tuple) and parity.is_sign(d) is not None for d in local_defs(f, n_))]
+    from ..engine import deref
     cut = var_from_call(f, "quantile")
-    mvl = vars_assigned_from(f, lambda v: isinstance(v, ast.Attribute) and v.attr == "metric_val")
-    sd = [d for d in local_defs(f, sgn[0]) if not isinstance(d, tuple)] if sgn else []
-    k = parity.is_sign(sd[0]) if len(sd) == 1 else None
-    sname, mname = (sgn[0] if sgn else "?"), (mvl[0] if mvl else "?")
-    cmpn = [x for x in walk_shallow(f.node) if isinstance(x, ast.Compare) and sname in U(x) and (cut or "?") in U(x)]
+    # the comparison  sign * (metric - cutoff) < 0 : the sign factor written out or held in a local, either side of the product
+    k, cmpn, c, other = None, [], None, None
+    for x in walk_shallow(f.node):
+        if not (isinstance(x, ast.Compare) and len(x.ops) == 1 and (cut or "?") in U(x)):
+            continue
+        c_ = parity.oriented(x, "0") or x
+        l = c_.left
+        if not (isinstance(l, ast.BinOp) and isinstance(l.op, ast.Mult) and U(c_.comparators[0]) == "0"):
+            continue
+        for sg, ot in ((l.left, l.right), (l.right, l.left)):
+            k_ = parity.is_sign(deref(f, sg))
+            if k_ is not None:
+                cmpn.append(x)
+                k, c, other = k_, c_, ot
     ok = k is not None and len(cmpn) == 1
-    why = "sign is not a mode-derived factor that flips with the mode"
+    why = "no comparison of a mode sign times (metric - cutoff) with 0 found"
     if ok:
-        c = parity.oriented(cmpn[0], "0") or cmpn[0]
-        # sign * (metric - cutoff) < 0  rejects; with sign = -1 for min (k = -1): metric - cutoff > 0 rejects for min
-        l = c.left
-        ok = isinstance(l, ast.BinOp) and isinstance(l.op, ast.Mult) and sname in (U(l.left), U(l.right)) and U(c.comparators[0]) == "0"
-        other = (l.right if U(l.left) == sname else l.left) if ok else None
-        from ..engine import deref
-        ok = ok and isinstance(other, ast.BinOp) and isinstance(other.op, ast.Sub) and U(other.right) == cut and \
-            (U(other.left) == mname or (isinstance(deref(f, other.left), ast.Attribute) and deref(f, other.left).attr == "metric_val"))
+        mvl = vars_assigned_from(f, lambda v: isinstance(v, ast.Attribute) and v.attr == "metric_val")
+        ok = isinstance(other, ast.BinOp) and isinstance(other.op, ast.Sub) and U(other.right) == cut and \
+            (U(other.left) in mvl or (isinstance(deref(f, other.left), ast.Attribute) and deref(f, other.left).attr == "metric_val"))
         # direction: min (k) : reject iff k*(m - c) < 0 ; must be "m > c" => k = -1 ; strictness: equality is not rejected
         ok = ok and isinstance(c.ops[0], ast.Lt) and k == -1
         why = f"`{U(c)}` with sign={k} under min"
